@@ -382,6 +382,138 @@ def run(repo: Repo, rep: Report, tier: str) -> None:
     rep.extra["exhaustive"] = False
     check_exc_truth(repo, rep)
     rep.floor("uses of the handler's iterable in _wrap_handler", check_wrap_handler_uses(repo, rep), 1)
+    check_logging_total(repo, rep)
+    check_locks_released(repo, rep)
+
+def check_logging_total(repo: Repo, rep: Report) -> None:
+    """The containment handlers log what a user handler raised as `LOGGER.exception(exc)`: the record's msg
+    is the exception *object*. A logging.Handler's emit() is shielded (handleError), a *filter* is not: what
+    a filter raises propagates out of the LOGGER call - out of trigger()'s except body, out of
+    attempt.__exit__ - and replaces the contained exception by one that escapes into the protocol machinery.
+    So every filter the package installs must treat record.msg / record.args as opaque objects: str(),
+    repr(), isinstance(), record.getMessage() only, or an isinstance-guarded use."""
+    rep.rule("logging-total", "filters the package installs on its loggers / handlers never apply a type-specific operation to record.msg (the package logs exception objects as msg)")
+    from .c27 import pkg_modules
+
+    n_obj = 0
+    n_filters = 0
+    for short, m in pkg_modules(repo):
+        # on the source as written: the canonical tree has benign log lines dropped
+        for h in ast.walk(ast.parse(m.src)):
+            if isinstance(h, ast.ExceptHandler) and h.name:
+                for c in ast.walk(h):
+                    if isinstance(c, ast.Call) and isinstance(c.func, ast.Attribute) and isinstance(c.func.value, ast.Name) and c.func.value.id in ("LOGGER", "logger") and c.func.attr in ("exception", "error", "warning", "info", "debug") and c.args and isinstance(c.args[0], ast.Name) and c.args[0].id == h.name:
+                        n_obj += 1
+    rep.counters["log calls whose msg is a caught exception object"] = n_obj
+    rep.floor("log calls whose msg is a caught exception object (the premise of the rule)", n_obj, 10)
+    for short, m in pkg_modules(repo):
+        for c in ast.walk(m.tree):
+            if not (isinstance(c, ast.Call) and isinstance(c.func, ast.Attribute) and c.func.attr == "addFilter" and c.args):
+                continue
+            a = c.args[0]
+            fns = []
+            if isinstance(a, ast.Lambda):
+                fns.append((a, a.args.args[0].arg if a.args.args else None, [a.body]))
+            else:
+                nm = a.func if isinstance(a, ast.Call) else a
+                if isinstance(nm, ast.Name):
+                    ci = m.classes.get(nm.id)
+                    if ci is not None:
+                        f = ci.methods.get("filter")
+                        if f is not None and len(f.args.args) >= 2:
+                            fns.append((f, f.args.args[1].arg, f.body))
+                    elif nm.id in m.funcs:
+                        f = m.funcs[nm.id]
+                        fns.append((f, f.args.args[0].arg if f.args.args else None, f.body))
+            if not fns:
+                rep.defer(f"{short}: addFilter({norm(a)[:40]}) - the filter's code was not found")
+                continue
+            for f, rec, body in fns:
+                n_filters += 1
+                bad = []
+                for st in body:
+                    for x in ast.walk(st):
+                        if not (isinstance(x, ast.Attribute) and x.attr in ("msg", "args") and norm(x.value) == rec and isinstance(x.ctx, ast.Load)):
+                            continue
+                        par = parent(x)
+                        if isinstance(par, ast.Call) and x in par.args and dotted(par.func) in ("str", "repr", "isinstance", "type", "id"):
+                            continue
+                        if isinstance(par, ast.Compare) and all(isinstance(o, (ast.Is, ast.IsNot)) for o in par.ops):
+                            continue
+                        # guarded: `isinstance(record.msg, str) and <use>` / inside `if isinstance(record.msg, str):`
+                        guarded = False
+                        p_ = x
+                        while p_ is not None and p_ is not f:
+                            q_ = parent(p_)
+                            if isinstance(q_, ast.BoolOp) and isinstance(q_.op, ast.And):
+                                idx = [i for i, v in enumerate(q_.values) if v is p_]
+                                if idx and any(isinstance(v, ast.Call) and dotted(v.func) == "isinstance" and v.args and norm(v.args[0]) == norm(x) for v in q_.values[: idx[0]]):
+                                    guarded = True
+                            if isinstance(q_, ast.If) and any(p_ is b for b in q_.body) and isinstance(q_.test, ast.Call) and dotted(q_.test.func) == "isinstance" and q_.test.args and norm(q_.test.args[0]) == norm(x):
+                                guarded = True
+                            p_ = q_
+                        if not guarded:
+                            bad.append(x)
+                fq = f"{short}.{qualname(f) if not isinstance(f, ast.Lambda) else 'lambda'}"
+                for x in bad[:3]:
+                    rep.fail("logging-total", fq, enclosing(x, (ast.stmt,)) or x, f"a logging filter installed by the package applies `{norm(parent(x))[:60]}` to {norm(x)}, which is whatever object was logged: the package logs caught handler exceptions as LOGGER.exception(exc) ({n_obj} sites), for those the filter raises (AttributeError / TypeError), the error propagates out of the logging call inside trigger()'s / attempt's except body and the handler's exception escapes into the DUL / service code instead of being contained", mod=m, node=x)
+                if not bad:
+                    rep.ok("logging-total", fq, "record.msg / record.args only through str() / repr() / isinstance() / getMessage()")
+    rep.counters["logging filters installed by the package"] = n_filters
+    if not n_filters:
+        rep.ok("logging-total", "pynetdicom :: no logging filter installed", f"{n_obj} log calls carry an exception object as msg")
+
+
+def check_locks_released(repo: Repo, rep: Report) -> None:
+    """The AE-wide lock is taken by the standard (notification) logging handlers and by bind()/unbind().
+    A handler that raises is swallowed by trigger() - but only a `with` block (or try/finally) gives the
+    lock back on that path. A bare acquire() ... release() pair leaves the non-reentrant lock held after
+    the first exception, and every later handler of any association of the AE blocks for ever."""
+    rep.rule("lock-released", "every <lock>.acquire() in the package is followed by the matching release() on every exit of the function, the exceptional ones included")
+    from ..cfg import CFG
+    from .c27 import pkg_modules
+
+    n = 0
+    n_with = 0
+    for short, m in pkg_modules(repo):
+        for w in ast.walk(m.tree):
+            if isinstance(w, ast.With) and any("lock" in norm(i.context_expr).lower() for i in w.items):
+                n_with += 1
+        for c in ast.walk(m.tree):
+            if not (isinstance(c, ast.Call) and isinstance(c.func, ast.Attribute) and c.func.attr == "acquire" and "lock" in norm(c.func.value).lower()):
+                continue
+            fn = enclosing(c, (ast.FunctionDef,))
+            if fn is None:
+                continue
+            n += 1
+            recv = norm(c.func.value)
+            fq = f"{short}.{qualname(c)}"
+            cfg = CFG(fn)
+            srcs = cfg.nodes_containing(c)
+            if not srcs:
+                rep.defer(f"{fq}: acquire() not placed in the control-flow graph")
+                continue
+            st = enclosing(c, (ast.stmt,))
+            res = st.targets[0].id if isinstance(st, ast.Assign) and isinstance(st.targets[0], ast.Name) else None
+
+            def via(nd, recv=recv, res=res):
+                a = nd.ast
+                if a is None:
+                    return False
+                if nd.kind == "test" and res is not None and isinstance(a, ast.If) and res in norm(a.test) and any(isinstance(r, ast.Call) and norm(r.func) == f"{recv}.release" for b in a.body for r in ast.walk(b)):
+                    return True  # `if locked: lock.release()` - the release for the case the acquire succeeded
+                roots = [a.test] if nd.kind == "test" and hasattr(a, "test") else [a]
+                return nd.kind in ("stmt", "finally") and any(isinstance(r, ast.Call) and norm(r.func) == f"{recv}.release" for rt in roots for r in ast.walk(rt))
+
+            ok, path = cfg.must_pass(srcs[0], via, {cfg.exit.id, cfg.raise_exit.id})
+            where = " -> ".join(f"{p.line}" for p in path[:8] if p.line)
+            rep.check(ok, "lock-released", fq, st, f"{recv} is acquired and there is a way out of {fn.name}() that does not release it (lines {where}{' -> raise' if path and path[-1] is cfg.raise_exit else ''}): when the code in between raises - trigger() swallows what a notification handler raises - the lock stays held and every later handler, bind() or unbind() of any association sharing it blocks for ever, so the association outcome changes", mod=m, node=c)
+    rep.counters["bare lock.acquire() sites"] = n
+    rep.counters["`with <lock>` blocks"] = n_with
+    rep.floor("`with <lock>` blocks in the package", n_with, 8)
+    if not n:
+        rep.ok("lock-released", f"pynetdicom :: {n_with} `with <lock>` blocks, no bare acquire()", "the context manager releases on every exit")
+
 
 def check_exc_truth(repo: Repo, rep: Report) -> None:
     """_wrap_handler reports what a user's generator raised as the second element of what it yields, and
